@@ -568,11 +568,15 @@ func runSignal(rng *rand.Rand, s *descriptor.Signal, nraw, nphys, npairs int, ex
 	}
 }
 
-func c09(perLen, nraw, nphys, npairs, exhMax int) {
+func c09(perLen, nraw, nphys, npairs, exhMax int, exh16 bool) {
 	rng := rand.New(rand.NewSource(seed))
 	// the documented example of the property text first: 0.1-scaled unsigned 16-bit, exhaustive
 	runSignal(rng, &descriptor.Signal{Name: "E", Length: 16, Scale: 0.1}, 0, nphys, npairs, true)
-	runSignal(rng, &descriptor.Signal{Name: "E", Length: 16, IsSigned: true, Scale: 0.01, Offset: -40, Min: -40, Max: 215}, 0, nphys, npairs, true)
+	if exh16 {
+		runSignal(rng, &descriptor.Signal{Name: "E", Length: 16, IsSigned: true, Scale: 0.01, Offset: -40, Min: -40, Max: 215}, 0, nphys, npairs, true)
+		runSignal(rng, &descriptor.Signal{Name: "E", Length: 16, Scale: 0.001, Offset: -32.768, Min: -32.768, Max: 32.767}, 0, nphys, npairs, true)
+		runSignal(rng, &descriptor.Signal{Name: "E", Length: 16, IsSigned: true, Scale: -0.25, Offset: 100}, 0, nphys, npairs, true)
+	}
 	// exhaustive raw axis for every length up to exhMax on a few signals
 	for l := 1; l <= exhMax; l++ {
 		for _, signed := range []bool{false, true} {
@@ -642,7 +646,7 @@ func main() {
 	case "c08":
 		c08(arg(3, 2))
 	case "c09":
-		c09(arg(3, 6), arg(4, 8), arg(5, 8), arg(6, 20), arg(7, 10))
+		c09(arg(3, 5), arg(4, 8), arg(5, 8), arg(6, 20), arg(7, 10), arg(8, 0) != 0)
 	default:
 		os.Exit(2)
 	}
